@@ -1096,7 +1096,8 @@ def chunk_dispatch(repo: Repo, rep, P: str):
             rep.violation(f"{P}.R3", lcon, f"chnm == {k:#x} → `{tgt or 'nothing'}`", f"{what} chunk is no longer dispatched", f"{rel}:{lc.lineno}")
     # effect: written as CHNM 0x10a with Synth bytes, loaded through read_sunvox_file
     wsrc = norm(wf)
-    reads = [n for n in ast.walk(lc) if isinstance(n, ast.Assign) and norm(n.targets[0]) == "self.effect" and isinstance(n.value, ast.Call)
+    reads = [n for mname, mfn in samp.methods.items() if mname != "__init__" for n in ast.walk(mfn)
+             if isinstance(n, ast.Assign) and norm(n.targets[0]) == "self.effect" and isinstance(n.value, ast.Call)
              and norm(n.value.func) == "read_sunvox_file"]
     writes = [n for n in ast.walk(wf) if isinstance(n, ast.Call) and norm(n.func) == "self.effect.write_to"]
     if writes and reads:
